@@ -3,6 +3,9 @@
 //! repo to a local bare remote, under random schedules of: somebody else updating the remote
 //! (directly in the bare repository, or in a quarter of the cases by a second plain-git clone
 //! running `git push -f`), jj-side bookmark edits, track/untrack, jj "fetch" and pushes.
+//! In a third of the cases (and in the two fixed cases with index 0 and 1) the bare remote has
+//! an executable hooks/update that refuses refs/heads/deny*, so pushes mix accepted refs,
+//! lease-stale refs ("stale info") and refs the remote rejects ("remote rejected").
 //! `jj git fetch` needs git >= 2.41 (installed: 2.39), so fetch = plain `git fetch --prune
 //! origin` inside the backing repository followed by jj_lib::git::import_refs, which is the
 //! same state change to the view. All states are observed around every fetch and push.
@@ -61,11 +64,23 @@ impl GitSubprocessCallback for NullCallback {
     }
 }
 
+thread_local! {
+    /// names the remote's update hook refuses in the current case (refs/heads/deny<n>)
+    static DENIED: std::cell::RefCell<Vec<u64>> = const { std::cell::RefCell::new(Vec::new()) };
+}
+fn is_denied(n: u64) -> bool {
+    DENIED.with(|d| d.borrow().contains(&n))
+}
 fn bname(n: u64) -> String {
-    format!("b{n}")
+    if is_denied(n) { format!("deny{n}") } else { format!("b{n}") }
 }
 fn name_num(s: &str) -> Option<u64> {
-    s.strip_prefix('b')?.parse().ok()
+    if let Some(r) = s.strip_prefix("deny") {
+        let n: u64 = r.parse().ok()?;
+        return is_denied(n).then_some(n);
+    }
+    let n: u64 = s.strip_prefix('b')?.parse().ok()?;
+    (!is_denied(n)).then_some(n)
 }
 
 /// Runs plain git with a watchdog; returns success.
@@ -251,7 +266,8 @@ fn main() {
         unsafe { std::env::set_var("TMPDIR", &ctx.scratch) };
         for i in ctx.indices() {
             let mut rng = ctx.rng(i);
-            let res = std::panic::catch_unwind(std::panic::AssertUnwindSafe(|| one_case(&mut rng)));
+            let fixed = if i < 2 { Some(i as u8) } else { None };
+            let res = std::panic::catch_unwind(std::panic::AssertUnwindSafe(|| one_case(&mut rng, fixed)));
             let (term, nontrivial, shape, feats, notes) = match res {
                 Ok(r) => r,
                 Err(e) => {
@@ -262,7 +278,7 @@ fn main() {
                         .unwrap_or_default();
                     ctx.panicked();
                     (
-                        "(mk_case [] [] false [] false)".to_string(),
+                        "(mk_case [] [] false [] [] false)".to_string(),
                         false,
                         "harness-panic".to_string(),
                         vec![],
@@ -281,7 +297,7 @@ fn main() {
     });
 }
 
-fn one_case(rng: &mut Rng) -> (String, bool, String, Vec<&'static str>, Vec<String>) {
+fn one_case(rng: &mut Rng, fixed: Option<u8>) -> (String, bool, String, Vec<&'static str>, Vec<String>) {
     let settings = testutils::user_settings();
     let temp_dir = testutils::new_temp_dir();
     let source_dir = temp_dir.path().join("source");
@@ -290,12 +306,43 @@ fn one_case(rng: &mut Rng) -> (String, bool, String, Vec<&'static str>, Vec<Stri
     let jj_dir = temp_dir.path().join("jj");
     let source = testutils::git::init_bare(&source_dir);
 
-    let n_names = rng.range(1, 3);
+    let mut n_names = rng.range(1, 3);
+    let mut n_ext = rng.range(1, 3);
+    let mut n_jj = rng.range(2, 4);
+    let mut auto_track = rng.chance(2, 3);
+    let mut real_other = rng.chance(1, 4);
+    // a third of the cases: the remote has an update hook that refuses refs/heads/deny*
+    let hook_mode = fixed.is_some() || rng.chance(1, 3);
+    let mut denied: Vec<u64> = vec![];
+    if hook_mode {
+        n_names = n_names.max(2);
+        denied.push(n_names);
+        if n_names >= 3 && rng.chance(1, 4) {
+            denied.push(n_names - 1);
+        }
+    }
+    match fixed {
+        Some(0) => {
+            (n_names, n_ext, n_jj, auto_track, real_other) = (3, 2, 3, true, false);
+            denied = vec![3];
+        }
+        Some(_) => {
+            (n_names, n_ext, n_jj, auto_track, real_other) = (2, 1, 2, false, false);
+            denied = vec![2];
+        }
+        None => {}
+    }
+    denied.sort();
+    DENIED.with(|d| *d.borrow_mut() = denied.clone());
     let names: Vec<u64> = (1..=n_names).collect();
-    let n_ext = rng.range(1, 3);
-    let n_jj = rng.range(2, 4);
-    let auto_track = rng.chance(2, 3);
-    let real_other = rng.chance(1, 4);
+    if !denied.is_empty() {
+        use std::os::unix::fs::PermissionsExt as _;
+        let hooks = source_dir.join("hooks");
+        std::fs::create_dir_all(&hooks).unwrap();
+        let hook = hooks.join("update");
+        std::fs::write(&hook, "#!/bin/sh\ncase \"$1\" in refs/heads/deny*) echo denied by hook >&2; exit 1;; esac\nexit 0\n").unwrap();
+        std::fs::set_permissions(&hook, std::fs::Permissions::from_mode(0o755)).unwrap();
+    }
 
     let mut w = World {
         backing_dir: backing_dir.clone(),
@@ -426,11 +473,58 @@ fn one_case(rng: &mut Rng) -> (String, bool, String, Vec<&'static str>, Vec<Stri
     // plan items: (op, forced name, forced value); ops: 0 external update, 1 jj set,
     // 2 track/untrack, 3 fetch, 4 push
     type Item = (u8, Option<u64>, Option<u64>);
-    let len = rng.range(2, 7);
+    let len = if fixed.is_some() { 0 } else { rng.range(1, 4) };
     let mut plan: Vec<Item> = vec![];
     let mut script: &'static str = "script:none";
-    // edge pool (70%): a scripted race on one name, then a random tail
-    if rng.chance(7, 10) {
+    let ok_names: Vec<u64> = names.iter().copied().filter(|n| !denied.contains(n)).collect();
+    if !denied.is_empty() && (fixed.is_some() || rng.chance(4, 5)) {
+        // hook pool: pushes that mix accepted, lease-stale and hook-denied refs
+        let d = *denied.last().unwrap();
+        let m = ok_names[0];
+        let s2 = if ok_names.len() > 1 { ok_names[1] } else { m };
+        let a = jj_commits[0];
+        let b = jj_commits[1];
+        let e = ext_commits[0];
+        let e2 = if ext_commits.len() > 1 { ext_commits[1] } else { 0 };
+        let ext = |n: u64, c: u64| -> Item { (0, Some(n), Some(c)) };
+        let jj = |n: u64, c: u64| -> Item { (1, Some(n), Some(c)) };
+        let track = |n: u64| -> Item { (2, Some(n), Some(1)) };
+        let fetch: Item = (3, None, None);
+        let push1 = |n: u64| -> Item { (4, Some(n), None) };
+        let push_all: Item = (5, None, None);
+        let k = match fixed {
+            Some(0) => 0,
+            Some(_) => 1,
+            None => rng.below(5),
+        };
+        let items: Vec<Item> = match k {
+            0 if s2 != m => {
+                script = "script:hook-mixed-accepted-stale-denied";
+                vec![
+                    jj(s2, a), push1(s2), ext(d, e), fetch, track(d), ext(s2, e2), jj(s2, b), jj(m, a),
+                    jj(d, a), push_all, jj(d, 0), push1(d), jj(m, b), push_all,
+                ]
+            }
+            1 => {
+                script = "script:hook-single-denied-create";
+                vec![jj(d, a), push1(d), jj(m, a), push_all]
+            }
+            2 => {
+                script = "script:hook-denied-move";
+                vec![ext(d, e), fetch, track(d), jj(d, a), jj(m, a), push_all, jj(m, b), push_all]
+            }
+            3 => {
+                script = "script:hook-denied-delete";
+                vec![ext(d, e), fetch, track(d), jj(d, 0), jj(m, a), push_all, push1(d)]
+            }
+            _ => {
+                script = "script:hook-denied-create-with-accepted";
+                vec![jj(m, a), jj(d, b), push_all, jj(m, b), push_all]
+            }
+        };
+        plan.extend(items);
+    } else if rng.chance(7, 10) {
+        // edge pool: a scripted race on one name, then a random tail
         let n = *rng.pick(&names);
         let m = if names.len() > 1 { names[(names.iter().position(|x| *x == n).unwrap() + 1) % names.len()] } else { n };
         let a = jj_commits[0];
@@ -496,11 +590,14 @@ fn one_case(rng: &mut Rng) -> (String, bool, String, Vec<&'static str>, Vec<Stri
         };
         plan.push((op, None, None));
     }
-    plan.push((4, None, None));
+    if fixed.is_none() {
+        plan.push((4, None, None));
+    }
 
     let mut steps: Vec<String> = vec![];
     let mut tx = repo.start_transaction();
     let (mut n_push, mut n_pushed, mut n_rejected, mut n_ext_race) = (0u32, 0u32, 0u32, 0u32);
+    let mut n_remote_rejected = 0u32;
     let mut kinds: Vec<&'static str> = vec![];
     let mut ext_since_sync: Vec<u64> = vec![];
 
@@ -523,7 +620,9 @@ fn one_case(rng: &mut Rng) -> (String, bool, String, Vec<&'static str>, Vec<Stri
                         if rng.chance(1, 4) || cands.is_empty() { 0 } else { *rng.pick(&cands) }
                     }
                 };
-                if real_other {
+                // the hook would refuse the second clone's push too: somebody with direct
+                // access to the remote repository moves denied branches
+                if real_other && !is_denied(n) {
                     let spec = if c == 0 { format!(":{full}") } else { format!("{}:{full}", w.oid(c)) };
                     // deleting a branch that does not exist is an error for git; skip quietly
                     let exists = src.find_reference(&full).is_ok();
@@ -567,10 +666,13 @@ fn one_case(rng: &mut Rng) -> (String, bool, String, Vec<&'static str>, Vec<Stri
                 steps.push(coq::app("JjSet", &[coq::n(n), tgt_term(&t)]));
             }
             2 => {
-                let n = *rng.pick(&names);
+                let n = forced_name.unwrap_or_else(|| *rng.pick(&names));
                 let name = bname(n);
                 let sym = RemoteRefSymbol { name: RefName::new(&name), remote: origin };
-                let track = rng.chance(2, 3);
+                let track = match forced_val {
+                    Some(v) => v != 0,
+                    None => rng.chance(2, 3),
+                };
                 if track {
                     tx.repo_mut().track_remote_bookmark(sym).block_on().unwrap();
                 } else {
@@ -606,7 +708,7 @@ fn one_case(rng: &mut Rng) -> (String, bool, String, Vec<&'static str>, Vec<Stri
                 // the bookmarks considered by this push (like -b / --all), ascending
                 let ns: Vec<u64> = if let Some(n) = forced_name {
                     vec![n]
-                } else if rng.chance(2, 3) {
+                } else if op == 5 || rng.chance(2, 3) {
                     names.clone()
                 } else {
                     names.iter().copied().filter(|_| rng.chance(1, 2)).collect()
@@ -625,6 +727,7 @@ fn one_case(rng: &mut Rng) -> (String, bool, String, Vec<&'static str>, Vec<Stri
                     }
                 }
                 let (mut pushed, mut rejected, mut unexported) = (vec![], vec![], 0u64);
+                let mut remote_rejected: Vec<u64> = vec![];
                 if !targets.bookmarks.is_empty() {
                     n_push += 1;
                     let res = jjv::catch(|| {
@@ -642,9 +745,7 @@ fn one_case(rng: &mut Rng) -> (String, bool, String, Vec<&'static str>, Vec<Stri
                             let to_num = |s: &str| s.strip_prefix("refs/heads/").and_then(name_num).unwrap_or(9999);
                             pushed = stats.pushed.iter().map(|r| to_num(r.as_str())).collect();
                             rejected = stats.rejected.iter().map(|(r, _)| to_num(r.as_str())).collect();
-                            if !stats.remote_rejected.is_empty() {
-                                w.bad("remote_rejected not empty");
-                            }
+                            remote_rejected = stats.remote_rejected.iter().map(|(r, _)| to_num(r.as_str())).collect();
                             unexported = stats.unexported_bookmarks.len() as u64;
                         }
                         Some(Err(e)) => w.bad(format!("push error: {e}")),
@@ -653,6 +754,8 @@ fn one_case(rng: &mut Rng) -> (String, bool, String, Vec<&'static str>, Vec<Stri
                 }
                 pushed.sort();
                 rejected.sort();
+                remote_rejected.sort();
+                n_remote_rejected += remote_rejected.len() as u32;
                 n_pushed += pushed.len() as u32;
                 n_rejected += rejected.len() as u32;
                 let view = tx.repo().view().clone();
@@ -677,6 +780,28 @@ fn one_case(rng: &mut Rng) -> (String, bool, String, Vec<&'static str>, Vec<Stri
                         "pushed:move"
                     });
                 }
+                for n in &remote_rejected {
+                    let (a, l) = (gget(&pre.remote, *n), pre.local.iter().find(|(k, _)| k == n));
+                    kinds.push(if a == 0 {
+                        "remote-rejected:create"
+                    } else if l.is_none() {
+                        "remote-rejected:delete"
+                    } else {
+                        "remote-rejected:move"
+                    });
+                    if gget(&pre.remote, *n) != gget(&post.remote, *n) {
+                        kinds.push("REMOTE-CHANGED-ON-REJECT");
+                    }
+                }
+                if !remote_rejected.is_empty() && !pushed.is_empty() {
+                    kinds.push("push-mixing-accepted-and-remote-rejected");
+                }
+                if !remote_rejected.is_empty() && !rejected.is_empty() && !pushed.is_empty() {
+                    kinds.push("push-mixing-accepted-stale-and-remote-rejected");
+                }
+                if !remote_rejected.is_empty() && pushed.is_empty() && rejected.is_empty() {
+                    kinds.push("push-with-only-remote-rejected-refs");
+                }
                 for n in &rejected {
                     let (a, l) = (gget(&pre.remote, *n), pre.local.iter().find(|(k, _)| k == n));
                     kinds.push(if a == 0 {
@@ -695,6 +820,7 @@ fn one_case(rng: &mut Rng) -> (String, bool, String, Vec<&'static str>, Vec<Stri
                         snap_term(&post),
                         coq::list(pushed.iter(), |n| coq::n(*n)),
                         coq::list(rejected.iter(), |n| coq::n(*n)),
+                        coq::list(remote_rejected.iter(), |n| coq::n(*n)),
                         coq::n(unexported),
                     ],
                 ));
@@ -709,6 +835,7 @@ fn one_case(rng: &mut Rng) -> (String, bool, String, Vec<&'static str>, Vec<Stri
             coq::list(names.iter(), |n| coq::n(*n)),
             coq::list(graph.iter(), |(k, ps)| coq::pair(coq::n(*k), coq::list(ps.iter(), |p| coq::n(*p)))),
             coq::b(auto_track),
+            coq::list(denied.iter(), |n| coq::n(*n)),
             coq::list(steps.iter(), |s| s.clone()),
             coq::b(w.flags_ok),
         ],
@@ -727,14 +854,18 @@ fn one_case(rng: &mut Rng) -> (String, bool, String, Vec<&'static str>, Vec<Stri
     if !w.flags_ok {
         feats.push("flags-not-ok");
     }
-    let nontrivial = n_pushed + n_rejected > 0;
+    let nontrivial = n_pushed + n_rejected + n_remote_rejected > 0;
     let _ = n_push;
     let shape = format!(
-        "pushed={} rejected={} auto_track={} second_clone={}",
+        "pushed={} stale={} hook_denied={} auto_track={} second_clone={}",
         n_pushed.min(1),
         n_rejected.min(1),
+        n_remote_rejected.min(1),
         auto_track,
         real_other
     );
+    if fixed.is_some() {
+        feats.push("fixed-corpus-case");
+    }
     (term, nontrivial, shape, feats, w.notes.clone())
 }
